@@ -28,7 +28,8 @@ type Ctx struct {
 	Tier  string // "quick" | "thorough"
 	Seed  int64
 	Repo  string // /repo
-	Verif string // /verif
+	Verif string // /verif: where evidence/ and replay/ are written
+	Home  string // /verif: where corpus/ and known-findings.txt are read (differs from Verif only in self-tests)
 	Start time.Time
 
 	obs      []*Obligation
@@ -45,6 +46,10 @@ func NewCtx(prop, tier string) *Ctx {
 	}
 	if r := os.Getenv("WV_REPO"); r != "" {
 		c.Repo = r
+	}
+	c.Home = c.Verif
+	if r := os.Getenv("WV_HOME"); r != "" {
+		c.Home = r
 	}
 	if r := os.Getenv("WV_VERIF"); r != "" {
 		c.Verif = r
@@ -223,7 +228,7 @@ func slug(s string) string {
 // returns the process exit code.
 func (c *Ctx) Finish(spec Spec) int {
 	defer c.RunCleanups()
-	known, err := loadKnown(filepath.Join(c.Verif, "known-findings.txt"))
+	known, err := loadKnown(filepath.Join(c.Home, "known-findings.txt"))
 	if err != nil {
 		fmt.Fprintf(os.Stderr, "wv: %v\n", err)
 		return ExitInfra
